@@ -4,8 +4,10 @@ from absint import *
 
 class O(V):
     """value with a set of origins: 'fresh', 'const', 'P:<name>' (entry parameter), 'A:<expr>' (object state)"""
-    def __init__(self, org, mask=False):
-        self.org, self.mask = frozenset(org), mask
+    def __init__(self, org, mask=False, local=False):
+        # local: a container created in the analysed code (list/dict display); its element origins are tracked in org but
+        # mutating the container itself (append/extend/...) is not a write to anybody else's state
+        self.org, self.mask, self.local = frozenset(org), mask, local
     def __repr__(self):
         return "O{" + ",".join(sorted(self.org)) + "}"
 
@@ -77,7 +79,8 @@ class OriginDomain:
             except Exception: pass
         if isinstance(a, Const) and a.value is None and isinstance(b, O): return b
         if isinstance(b, Const) and b.value is None and isinstance(a, O): return a
-        return O(org_of(a) | org_of(b))
+        loc = lambda v: (isinstance(v, Seq) and v.kind in ("py", "pyabs")) or (isinstance(v, O) and v.local)
+        return O(org_of(a) | org_of(b), local=loc(a) and loc(b))
     def truth(self, v):
         if isinstance(v, Const):
             try: return bool(v.value)
@@ -97,6 +100,14 @@ class OriginDomain:
         if isinstance(a, Const) and isinstance(b, Const):
             return Const(None) if a.value is None else O({"const"})
         return FRESH
+    def aug_name(self, op, cur, rhs, node):
+        """`x op= y` on a name: in place for ndarrays/lists (the object x refers to is modified), rebinding for numbers"""
+        if isinstance(cur, O) and owned(cur.org):
+            self.sink(cur, node, "augmented assignment (in place on arrays)")
+            return cur
+        if isinstance(cur, O):
+            return cur
+        return self.binop(op, cur, rhs, node)
     def unop(self, op, a, node):
         if isinstance(op, ast.Not) and isinstance(a, Const): return Const(not a.value)
         return FRESH
@@ -163,6 +174,10 @@ class OriginDomain:
         if name in MUTATORS:
             if isinstance(recv, Seq) and name == "append":
                 recv.items.append(args[0]); return Const(None)
+            if isinstance(recv, Seq) and recv.kind in ("py", "pyabs") and name in ("extend", "insert"):
+                recv.items.extend(args[-1].items if isinstance(args[-1], Seq) else [args[-1]]); return Const(None)
+            if isinstance(recv, O) and recv.local:
+                return Const(None)
             self.sink(recv, node, f".{name}()")
             return Const(None)
         if name in ("copy",): return FRESH
